@@ -149,8 +149,9 @@ func genC17Err(e *emitter, tier string, rng *rand.Rand) {
 		"\ufeffq = 1\nx = @\n", "\ufeffx = @\n", "名 = 2\nx = [名, @]\n",
 		"#\n", "p(1)\nif true {\n  #\n}\n", "for x in [1] {\n  p(x)\n}\n#\n", "for i = 0; i < 1; i = i + 1 {\n}\n  #\n",
 	}
-	loadOff := []string{"nosuch()", "nosuch(1, 2)", "len()", "len(1, 2)", "add_key()", "cast(k, \"nosuchtype\")", "pr(nosuch())", "[nosuch()]", "{1: 2}", "grok(_, \"%{NOSUCH:a}\")"}
-	runOff := []string{"(1 / zero0)", "(\"a\" - 1)", "(\"a\" % 2)", "(zero0 % 0.0)", "undefl[0]", "(1 + [1])", "(nil * 2)", "l9[5]"}
+	// (an in-expression as the offending operand: its start is the start of its left operand)
+	loadOff := []string{"add_key(1 in l9)", "cast(zero0 in l9, \"int\")", "{1 in l9: 2}", "nosuch()", "nosuch(1, 2)", "len()", "len(1, 2)", "add_key()", "cast(k, \"nosuchtype\")", "pr(nosuch())", "[nosuch()]", "{1: 2}", "grok(_, \"%{NOSUCH:a}\")"}
+	runOff := []string{"l9[1 in l9]", "l9[zero0 in l9:]", "l9[:\"a\" in \"ab\"]", "(1 / zero0)", "(\"a\" - 1)", "(\"a\" % 2)", "(zero0 % 0.0)", "undefl[0]", "(1 + [1])", "(nil * 2)", "l9[5]"}
 	stmtLoad := []string{"break", "continue", "nosuch()", "x = nosuch()", "if nosuch() {\n}"}
 	stmtRun := []string{"x = 1 / zero0", "l9[7] = 1", "x = \"a\" - 1"}
 	emit := func(src, gen string, a, b int, errj any, file string, srcs map[string]string) {
@@ -219,6 +220,44 @@ func genC17Link(e *emitter) {
 		{[]scriptSrc{{"a.p", "p(1)\nuse(\"x.p\")\nif true {\n  use(\"nosuch.p\")\n}\n"}, {"x.p", "p(0)\n"}}, "a.p", "use(\"nosuch.p\")"},
 		{[]scriptSrc{{"a.p", "use(\"x.p\")\nuse(\"c.p\")\n"}, {"c.p", "p(3)\n  use(\"d.p\")\n"}, {"d.p", "use(\"c.p\")\n"}, {"x.p", "p(0)\n"}}, "a.p", "use(\"c.p\")"},
 		{[]scriptSrc{{"a.p", "use(\"x.p\")\nuse(\"bad.p\")\n"}, {"bad.p", "p(1)\n x = [len(len(nosuch()))]\n"}, {"x.p", "p(0)\n"}}, "bad.p", "nosuch()"},
+	}
+	// the error a script inherits from a script it reaches through two and three use() calls: the chain names
+	// the script of every call site (each position is one of its own file)
+	type far struct {
+		scripts []scriptSrc
+		errOf   string // the script whose load error is inspected
+		fault   string // the script at fault
+		needle  string
+	}
+	for _, c := range []far{
+		{[]scriptSrc{{"a.p", "p(0)\nuse(\"b.p\")\n"}, {"b.p", "p(1)\n\n\n    use(\"c.p\")\n"}, {"c.p", "p(2)\nnosuch(1)\n"}}, "a.p", "c.p", "nosuch(1)"},
+		{[]scriptSrc{{"a.p", "use(\"b.p\")\n"}, {"b.p", "if true {\n  use(\"c.p\")\n}\n"}, {"c.p", "p(2)\n  x = 1 1\np(3)\n"}}, "a.p", "c.p", "x = 1 1"},
+		{[]scriptSrc{{"r.p", "p(0)\n  use(\"a.p\")\n"}, {"a.p", "use(\"b.p\")\n"}, {"b.p", "\n\nuse(\"c.p\")\n"}, {"c.p", "for x in [1] {\n  len()\n}\n"}}, "r.p", "c.p", "len()"},
+		{[]scriptSrc{{"a.p", "use(\"b.p\")\n"}, {"b.p", "p(1)\n        use(\"c.p\")\n"}, {"c.p", "p(2)\nnosuch(1)\n"}}, "b.p", "c.p", "nosuch(1)"},
+	} {
+		order := []string{}
+		srcs := map[string]string{}
+		for _, s := range c.scripts {
+			order = append(order, s.Name)
+			srcs[s.Name] = s.Src
+		}
+		for _, ord := range perms(order) {
+			out := loadV1(loadCase{Scripts: c.scripts, Order: ord})
+			hook, _ := out["hook"].(map[string]any)
+			errs, _ := hook["errors"].(map[string]any)
+			ej := errs[hx(c.errOf)]
+			if ej == nil {
+				continue
+			}
+			src := srcs[c.fault]
+			at := strings.Index(src, c.needle)
+			hs := map[string]any{}
+			for k, v := range srcs {
+				hs[hx(k)] = hx(v)
+			}
+			e.stat("errpos-link-far")
+			e.emit(map[string]any{"k": "errpos", "src": hx(src), "file": hx(c.fault), "srcs": hs, "err": ej, "span": lineSpan(src, at, at+len(c.needle)), "gen": "errpos-link-far", "key": fmt.Sprint(c.errOf, ord)})
+		}
 	}
 	for _, c := range cases {
 		order := []string{}
